@@ -44,6 +44,10 @@ func parseBeh(toks []string) (*behT, []string) {
 		return &behT{tag: 'G', mark: toks[1] == "1", k: atoi(toks[2]), z: atoi(toks[3])}, toks[4:]
 	case "P", "X":
 		return &behT{tag: t[0], mark: toks[1] == "1"}, toks[2:]
+	case "Y":
+		// Y,<cancel 0|1>,<z>: OUTSIDE the model's script language (engx scenarios only): the function calls r.Pause / r.Cancel and,
+		// when that call fails, swallows the error and returns (z, nil); when it succeeds it returns what the call returned
+		return &behT{tag: 'Y', k: atoi(toks[1]), z: atoi(toks[2])}, toks[3:]
 	case "F":
 		b := &behT{tag: 'F', k: atoi(toks[1]), z: atoi(toks[2])}
 		sub, rest := parseBeh(toks[3:])
@@ -238,7 +242,7 @@ func (e *engine) scripted(code int, b *behT, status int, dests ...int) func(ctx 
 		n := e.attempt(code, r.RunID)
 		mark, tag, z, gst := b.eval4(n, r.Object.Seed)
 		view := r.Record
-		planned := map[byte]string{'R': fmt.Sprintf("r%d", z), 'E': fmt.Sprintf("e%d", z), 'G': fmt.Sprintf("e%d", z), 'P': "pause", 'X': "cancel"}[tag]
+		planned := map[byte]string{'R': fmt.Sprintf("r%d", z), 'E': fmt.Sprintf("e%d", z), 'G': fmt.Sprintf("e%d", z), 'P': "pause", 'X': "cancel", 'Y': fmt.Sprintf("r%d", z)}[tag]
 		e.userTok(code, &view, planned)
 		if mark {
 			r.Object.Trail = append(r.Object.Trail, status)
@@ -283,6 +287,18 @@ func (e *engine) scripted(code int, b *behT, status int, dests ...int) func(ctx 
 				return r.Pause(ctx, "scripted pause")
 			}
 			return r.Cancel(ctx, "scripted cancel")
+		case 'Y':
+			var next st
+			var err error
+			if gst == 1 {
+				next, err = r.Cancel(ctx, "scripted cancel")
+			} else {
+				next, err = r.Pause(ctx, "scripted pause")
+			}
+			if err != nil {
+				return st(z), nil
+			}
+			return next, nil
 		default:
 			panic("behaviour tag")
 		}
@@ -489,13 +505,14 @@ func (e *engine) crash(inst int) {
 	}
 	done := make(chan struct{})
 	go func() { e.wfs[inst].Stop(); close(done) }()
-	hung := time.After(3 * time.Second)
+	hung := time.After(patience())
 	for {
 		select {
 		case <-done:
 			restart()
 			return
 		case <-hung:
+			giveUps.Add(1)
 			e.stopHung = true
 			stopHangSeen.Store(true)
 			restart()
@@ -512,6 +529,19 @@ func (e *engine) crash(inst int) {
 // later stops first watch the processes end on their own (waitDown) and do not call Stop at all when one does not.
 var stopHangSeen atomic.Bool
 
+// How long the harness waits in real time for something that never comes when the code under test is defective (a Stop that does
+// not return, a process that has gone silent): 3 s — but once it has given up four times in this harness process the code under
+// test is known to be defective here, and every further give-up costs 150 ms, so that a check on such a tree ends in minutes, not
+// in an hour. On a tree where the properties hold the harness never gives up, so nothing changes there.
+var giveUps atomic.Int32
+
+func patience() time.Duration {
+	if giveUps.Load() >= 4 {
+		return 150 * time.Millisecond
+	}
+	return 3 * time.Second
+}
+
 // waitDown watches the processes of an instance whose context was just cancelled end on their own, answering every call they
 // still make with a cancellation; false (and API=-7) when after 3 s of real time one has not.
 func (e *engine) waitDown(inst int) bool {
@@ -524,7 +554,7 @@ func (e *engine) waitDown(inst int) bool {
 		}
 		return true
 	}
-	deadline := time.Now().Add(3 * time.Second)
+	deadline := time.Now().Add(patience())
 	for !allDown() {
 		select {
 		case req := <-s.reqCh:
@@ -532,6 +562,7 @@ func (e *engine) waitDown(inst int) bool {
 		case <-time.After(200 * time.Microsecond):
 		}
 		if time.Now().After(deadline) {
+			giveUps.Add(1)
 			e.stopHung = true
 			return false
 		}
@@ -571,7 +602,11 @@ func (e *engine) stepProc(p *proc) {
 				s.emit(p, "AW:=blk:")
 				return
 			} else if ok && h == p {
-				panic("process awaits a role it still holds")
+				// the process asks again for a role it never handed back (its previous role context was not cancelled): with a real
+				// role scheduler it now waits for itself for ever — the work of this process is never done again
+				p.gone = true
+				s.emit(nil, "API=-8")
+				return
 			}
 			d = s.decide(p, "AW")
 		case "RV":
@@ -619,7 +654,8 @@ func (e *engine) stepProc(p *proc) {
 				}
 				// ... or is it blocked somewhere the simulation does not see (e.g. waiting on a context that is never
 				// cancelled because it is not the one its role scheduler handed out)? Give up on it after 3 s of silence.
-				if time.Since(silent) > 3*time.Second {
+				if time.Since(silent) > patience() {
+					giveUps.Add(1)
 					p.gone = true
 					s.emit(nil, "API=-6")
 					return
@@ -930,10 +966,11 @@ func (e *engine) shutdown(inst int) {
 	}
 	done := make(chan struct{})
 	go func() { e.wfs[inst].Stop(); close(done) }()
-	hung := time.After(3 * time.Second)
+	hung := time.After(patience())
 	for {
 		select {
 		case <-hung:
+			giveUps.Add(1)
 			e.stopHung = true
 			stopHangSeen.Store(true)
 			return
